@@ -5425,7 +5425,11 @@ class DfaCompileCtx:
         if self.ast is None:
             raise IllegalASTStateError("The parser must match some input (it only contains actions)")
 
-        self.dfa = self.ast.convert(defaultdict(lambda: self.generic_fail_state))
+        try:
+            self.dfa = self.ast.convert(defaultdict(lambda: self.generic_fail_state))
+        except RecursionError:
+            # e.g. a regex with a very large repeat count: conversion recurses once per unrolled copy
+            raise IllegalASTStateError("The program is nested too deeply to convert (very large repeat count in a regex?)", self.ast) from None
         self.dfa.add(self.generic_fail_state)
 
         while self._optimize_remove_inaccessible() + self._optimize_simplify_transition_matches() + self._optimize_shortcircuit_fallthroughs():
